@@ -104,9 +104,10 @@ def run(ctx):
         if inc_set != fresh_set:
             only_inc = [x for x in a["inc"] if canon(x) not in fresh_set]
             only_fresh = [x for x in a["fresh"] if canon(x) not in inc_set]
-            ctx.violation({"kind": "incremental-differs-from-fresh", "stale": sorted({cls(x) for x in only_inc})[:3],
-                           "missing": sorted({cls(x) for x in only_fresh})[:3]},
-                          {"record": rec, "incremental": a["inc"], "fresh": a["fresh"], "edits": ops},
+            # signature: which side has extra entries (the message classes vary with the history and are in the replay file)
+            ctx.violation({"kind": "incremental-differs-from-fresh", "stale_entries": bool(only_inc), "missing_entries": bool(only_fresh)},
+                          {"record": rec, "incremental": a["inc"], "fresh": a["fresh"], "edits": ops,
+                           "stale": sorted({cls(x) for x in only_inc}), "missing": sorted({cls(x) for x in only_fresh})},
                           f"after the edit history {rec['notifs']} on {rec['init']!r} the server shows {only_inc} that a fresh server does not, and lacks {only_fresh}")
         elif a["inc"] != a["fresh"]:
             dup = sorted({cls(x) for x in a["inc"] if a["inc"].count(x) != a["fresh"].count(x)})
